@@ -1,7 +1,8 @@
 """Code-generation tables: variant/condition → emitted template, extracted with the emission interpreter."""
 from . import emit, facts as F
 
-AFF = lambda: {"var_index": {"v": "affine", "base": "v", "off": 0}, "vars": [], "fini": [], "init": []}
+# the symbolic start state of an allocating manager method is derived from the manager's own layout (vlib/mgrstate.py)
+AFF = lambda: {"__auto__": True}
 
 COMPILE_IMPLS = [
     "<Test as TargetScheme>::compile",
@@ -59,11 +60,11 @@ def table(facts, key, fields=None):
         eff = []
         for e in st.effects:
             if e[0] == "push":
-                eff.append("push %s %s" % (e[1], emit.canon(e[2])))
+                eff.append("push %s %s" % (emit.FIELD_ALIAS.get(e[1], e[1]), emit.canon(e[2])))
             elif e[0] == "assign":
-                eff.append("set %s = %s" % (e[1], emit.canon(e[2])))
+                eff.append("set %s = %s" % (emit.FIELD_ALIAS.get(e[1], e[1]), emit.canon(e[2])))
             elif e[0] == "insert":
-                eff.append("insert %s [%s]" % (e[1], ", ".join(emit.canon(x) for x in e[2])))
+                eff.append("insert %s [%s]" % (emit.FIELD_ALIAS.get(e[1], e[1]), ", ".join(emit.canon(x) for x in e[2])))
         rows.append(dict(cond=emit.canon_conds(st.conds), tokens=emit.scheme_tokens(text), text=text, outcome=outcome(st, v), effects=eff, unknown=list(st.unknown), st=st, val=v))
     return rows
 
